@@ -13,17 +13,17 @@ P = {
  'C03': ('label-chain and resume theorems (Lean) + differential correspondence', 'Labels chain and every end label is a resume point: proved over the decoded machine for every history and on the served bytes (C03_bytes_labels, C03_bytes_resume_at_label); every delivered label actually used as a restart point against the real code.', ''),
  'C04': ('induction over attempt sequences (Lean) + fault enumeration against the real code', 'Kept position is the boundary after the last accepted transaction for every handler, every cut of the served byte stream and every ending (C04_bytes_outcome / _resume_pos); exactly-once over any sequence of failed attempts at the decoded and at the byte level (C04_bytes_exactly_once); real parser/Stream driven through every fault kind.', 'partial facet: pacing is runtime; the driver contract is assumed'),
  'C05': ('reachability invariants of a finite-control protocol model (Lean, decide +kernel per step) + scheduled runs of the real Stream()', 'Termination, no leftover goroutine, Error() never blocks: invariants over all interleavings of the abstract reader/parser/caller protocol; the real code is driven through scripted schedules.', 'partial facets: Go scheduler, wall-clock time, data races (race detector run in the thorough tier; driver Close()/readPacket race is a known finding)'),
- 'C06': ('protocol invariants (Lean) + fault enumeration against the real Stream()', 'Stop reason published before channels close; Error() class determined by the cause for every stop point and interleaving of the model.', 'partial facet: timing is sampled'),
+ 'C06': ('protocol invariants (Lean) + fault enumeration against the real Stream()', 'Stop reason published before channels close; Error() class determined by the cause for every stop point and interleaving of the model; value-level decode failures stop the byte-level run with an error in every image / event kind / configuration (C06_bytes_value_decode_failure).', 'partial facet: timing is sampled'),
  'C07': ('call-trace theorem + dump packet round trip (Lean) + wire observation', 'Exactly one checksum announcement followed by exactly one dump request carrying id, offset, file name, flags 0; decode∘encode of the request for all ids/offsets/names.', 'the driver writes the packet: contract validated on the wire'),
  'C08': ('buffer-provenance model (Lean) + aliasing probes against the real code', 'No library write reaches a delivered byte; delivered values are pairwise disjoint or in different buffers.', 'partial facet: driver buffer management and pacing are runtime'),
- 'C09': ('case analysis + induction over rows (Lean) + differential correspondence', 'cellLength and CellBytes agree on every (type, metadata); rows events split into exactly the encoded images.', ''),
+ 'C09': ('case analysis + induction over rows (Lean) + differential correspondence', 'cellLength and CellBytes agree on every (type, metadata); rows events split into exactly the encoded images; padding bits of bitmaps are never read (C09_padding_*).', ''),
  'C10': ('round-trip theorems (Lean) + exhaustive/differential correspondence', 'Every integer of every width/signedness decodes to its canonical decimal text; YEAR, BIT, ENUM, SET forms; float bytes reach the formatter unchanged.', 'partial facet: strconv.AppendFloat is a parameter; its round-trip/exponent-free behaviour is checked per generated value'),
  'C11': ('round-trip theorem over all (p,s) and digit strings (Lean) + differential correspondence', 'DECIMAL text is canonical for every precision, scale and value.', ''),
  'C12': ('round-trip theorems per temporal encoding (Lean) + differential correspondence', 'Every representable DATE/TIME/DATETIME value in both encodings decodes to canonical text; civil-date arithmetic of TIMESTAMP proved.', 'partial facet: which UTC offset applies (tzdata) is a parameter supplied by the time package at run time'),
  'C13': ('round-trip theorems (Lean) + differential correspondence', 'String/blob payloads verbatim for every declared and actual length; NULL / empty / absent distinguishable.', ''),
  'C14': ('structural induction over documents (Lean) + differential correspondence', 'Binary JSON decodes to text denoting the stored document.', 'float E-format text is a parameter'),
- 'C15': ('round-trip theorem for table maps + cache invariants (Lean) + differential correspondence', 'Table maps decode exactly; rows attributed via the latest map for their id; column-count mismatch rejected.', ''),
- 'C16': ('round-trip and checksum-invariance theorems (Lean) + differential correspondence', 'Header fields and control event bodies decode exactly, with and without trailing checksum.', ''),
+ 'C15': ('round-trip theorem for table maps + cache invariants (Lean) + differential correspondence', 'Table maps decode exactly; rows attributed via the latest map for their id, also at the byte level under re-definition of an id (C15_bytes_redefinition); mapper / column-count mismatch rejected (C15_bytes_mapper_mismatch).', ''),
+ 'C16': ('round-trip and checksum-invariance theorems (Lean) + differential correspondence', 'Header fields and control event bodies decode exactly, with and without trailing checksum; the algorithm is re-read per file: fidelity against a master whose files alternate their checksum setting (C16_bytes_fidelity_mixed_checksums).', ''),
  'C17': ('iff-characterisation of the gate (Lean) + differential correspondence and injection', 'IsValid accepts exactly the self-consistent buffers; accessors total on them; invalid packets injected at any index of the served byte stream stop it with an error, no crash, no partial transaction, position at the last accepted boundary, and a clean attempt from there delivers the rest (C17_bytes_injected_invalid).', ''),
  'C18': ('set-semantics refinement (Lean) + exhaustive small-window correspondence', 'Contains/ContainsGTID/Equal/AddGTID agree with sets of (uuid, gno) pairs; AddGTID preserves canonical form.', ''),
  'C19': ('round-trip theorems for every GTID encoding (Lean) + differential correspondence', 'Text, tagged, SID-block and event encodings round-trip; MariaDB set invariants.', ''),
